@@ -84,7 +84,7 @@ Print Assumptions C05_push_quiet.
 (* The send queue is a bounded FIFO: never more than 9999 entries, in any schedule. *)
 Theorem C05_chsend_bounded : forall n tr c k,
   aget c (conns (run_from (init_with n) tr)) = Some k ->
-  c_nq k = Z.of_nat (length (c_sendq k)) /\ 0 <= c_nq k <= chcap.
+  c_nq k = Z.of_nat (length (c_sendf k) + length (c_sendq k)) /\ 0 <= c_nq k <= chcap.
 Proof. exact chsend_bounded. Qed.
 Print Assumptions C05_chsend_bounded.
 
